@@ -258,7 +258,7 @@ var c07Paths = []string{"", "variables", "variables.f", "variables.o.f", "variab
 	"0.variables.f", "9.variables.f", "0", "x.variables.f", "variables.s.f", "variables.missing", "1.variables.f", "variables.o.fs.0", "variables.f.x",
 	"variables.l.18446744073709551615", "18446744073709551615.variables.f", "variables.l.+1", "variables.l.4294967296"}
 
-const c07UploadQ = "mutation ($f: Upload, $o: UpIn, $l: [Upload], $s: String) { upload(f: $f) uploadMany(fs: $l) uploadIn(in: $o) }"
+const c07UploadQ = "mutation ($f: Upload, $o: UpIn, $l: [Upload], $s: String) { upload(f: $f) uploadMany(fs: $l) uploadIn(in: $o) mkN1(name: $s) { id } }"
 
 func c07Vars() map[string]interface{} {
 	return map[string]interface{}{"f": nil, "o": map[string]interface{}{"f": nil, "fs": []interface{}{nil, nil}, "s": "str"}, "l": []interface{}{nil, nil}, "s": "str"}
@@ -655,6 +655,14 @@ func init() {
 						}
 					} else {
 						chk(m)
+					}
+				}
+				if rq.Kind == "multipart 1 file paths variables.f" && rr.Code == 200 {
+					// the canonical well-formed upload is really executed (not merely answered with validation errors)
+					var m map[string]interface{}
+					json.Unmarshal(rr.Body.Bytes(), &m)
+					if d, _ := m["data"].(map[string]interface{}); d == nil || d["upload"] == nil || len(f.Fakes.Reqs) == 0 {
+						sigs = append(sigs, "a well-formed upload was not executed")
 					}
 				}
 				if i%16 == 0 || len(sigs) > 0 || rq.Kind == "size" || rq.Kind == "document" {
